@@ -54,6 +54,7 @@ RETURN_CHOICES = [
     {"return_": ("predict",)},
     {"return_": ("update",)},
     {"return_update": False, "return_predict_err": False},
+    {"likelihood_contributions": False},
 ]
 
 
